@@ -590,3 +590,48 @@ fs_lemma('isolation_default_namespace', lemma_default_alias, ensures=lambda res:
            requires=lambda a, b, name, other, ghost: two_stores_pre(a, b, name, other, ghost)
            + [eff_ns(base_of(ghost), a.namespace) != eff_ns(base_of(ghost), b.namespace), b.namespace == DEFAULT],
            )
+
+
+# ---------------------------------------------------------------------------
+# __init__ with a file name: namespace defaulting and the two paths
+# ---------------------------------------------------------------------------
+import pathlib  # noqa: E402
+
+from pyvc import models_calls as _MC  # noqa: E402
+from pyvc.contracts import REG as _REG  # noqa: E402
+from pyvc.values import Obj as _Obj  # noqa: E402
+
+
+def fs_resolve(ghost):
+    return ghost.resolved
+
+
+model('ghost:RawPath', fields=dict(arg=SymStr), methods={'resolve': Callback('resolve', effect=fs_resolve)})
+model('ghost:ResolvedPath', fields=dict(pid=SymStr, name=SymStr, parent=Inst('ghost:DirPath')))
+
+
+def _m_path(ex, *args):
+    """pathlib.Path(x) inside the kernel: a ghost path object that remembers its argument (environment: pathlib)"""
+    o = ex.alloc(_Obj(None, {'arg': args[0] if args else '.'}, _REG.models['ghost:RawPath']))
+    ex.wobj(ex.ghost).fields['path_arg'] = args[0] if args else '.'
+    return o
+
+
+_MC.CLASS_MODELS[pathlib.Path] = _m_path
+model('bumble.keys:JsonKeyStore#new', fields={})
+
+contract(
+    'bumble.keys:JsonKeyStore.__init__',
+    prop='C15',
+    params=dict(self=Inst('bumble.keys:JsonKeyStore#new'), namespace=Opt(SymStr), filename=SymStr),
+    ghost=dict(resolved=Inst('ghost:ResolvedPath'), path_arg=SymStr),
+    requires=lambda filename: [filename != ''],  # (without a file name: platformdirs, deferred import -- not covered)
+    ensures=lambda self, namespace, filename, ghost: [
+        self.namespace == (DEFAULT if (namespace is None or namespace == '') else namespace),
+        ghost.path_arg == filename and self.filename is ghost.resolved,
+        self.directory_name is ghost.resolved.parent,
+    ],
+    ensures_names=['namespace-or-default', 'file-is-the-resolved-path-of-the-argument', 'directory-is-its-parent'],
+    modifies=['self.*', 'ghost.path_arg'],
+    note='pathlib.Path(..).resolve()/.parent are environment (ghost path objects); the branch without a file name is outside',
+)
